@@ -562,7 +562,14 @@ func (C11) Judge(c *Ctx, sc *Scenario) []Violation {
 			// resource exhaustion on an adversarial legal input: the signature names the input class
 			sig += " input=" + special
 		}
-		vs = append(vs, Violation{Prop: "C11", Oracle: oracle, Sig: sig, Class: sig, Msg: msg + " | in=" + format + " argv=" + strings.Join(sc.Argv, " ")})
+		class := sig
+		exhaustion := strings.Contains(detail, "hang=watchdog") || strings.Contains(detail, "out of memory")
+		if exhaustion && special == "" {
+			// a run that eats time and memory without bound ends at whichever limit it meets first (the watchdog
+			// or the address-space guard), and which one that is depends on the load of the machine: one class
+			class = "resource exhaustion in=" + format
+		}
+		vs = append(vs, Violation{Prop: "C11", Oracle: oracle, Sig: sig, Class: class, Probabilistic: exhaustion && special == "", Msg: msg + " | in=" + format + " argv=" + strings.Join(sc.Argv, " ")})
 	}
 	faulted := false
 	if ds, ok := sc.Meta["damage"].([]damage); ok && len(ds) > 0 {
